@@ -206,3 +206,42 @@ Definition entN_eqb (a b : entdef N) : bool :=
     the number itself, make_lookup reads position [i] of the list *)
 Definition encN (s : N) : option (N * N) := if s <? 65536 then Some (pack16 s) else None.
 Definition decN (canon : list N) (p : N * N) : option N := nth_error canon (N.to_nat (unpack16 p)).
+
+(** * The file header of the database: 'FGD', format version, number of blocks, and per block the class names
+      (one UTF-8 string joined with STRING_SEP) with the position and size of the block's data (`<BI`, `<H`, `<IH`) *)
+Definition le16 (n : N) : list N := [n mod 256; n / 256].
+Definition le32 (n : N) : list N := [n mod 256; (n / 256) mod 256; (n / 65536) mod 256; n / 16777216].
+Definition un32 (a b c d : N) : N := a + 256 * b + 65536 * c + 16777216 * d.
+Definition MAGIC : list N := [70; 71; 68].
+Record bpos := mk_bpos { bp_names : list N; bp_off : N; bp_size : N }.
+Definition bpos_ser (b : bpos) : option (list N) :=
+  if (N.of_nat (List.length (bp_names b)) <? 65536) && (bp_off b <? 4294967296) && (bp_size b <? 65536)
+  then Some (le16 (N.of_nat (List.length (bp_names b))) ++ bp_names b ++ le32 (bp_off b) ++ le16 (bp_size b)) else None.
+Definition header_ser (version : N) (bs : list bpos) : option (list N) :=
+  if (version <? 256) && (N.of_nat (List.length bs) <? 4294967296)
+  then cat (Some (MAGIC ++ version :: le32 (N.of_nat (List.length bs)))) (cat_all (map bpos_ser bs)) else None.
+Definition bpos_unser : reader bpos :=
+  fun bs => match bs with
+            | a :: b :: r =>
+                let n := N.to_nat (a + 256 * b) in
+                if (n <=? List.length r)%nat then
+                  match skipn n r with
+                  | o0 :: o1 :: o2 :: o3 :: s0 :: s1 :: r' => Some (mk_bpos (firstn n r) (un32 o0 o1 o2 o3) (s0 + 256 * s1), r')
+                  | _ => None
+                  end
+                else None
+            | _ => None
+            end.
+Definition header_unser (version : N) : reader (list bpos) :=
+  fun bs => match bs with
+            | 70 :: 71 :: 68 :: v :: a :: b :: c :: d :: r => if v =? version then rd_n (N.to_nat (un32 a b c d)) bpos_unser r else None
+            | _ => None
+            end.
+(** unserialise(): `file.seek(off); file.read(size)` *)
+Definition slice (file : list N) (off size : N) : list N := firstn (N.to_nat size) (skipn (N.to_nat off) file).
+(** serialise(): the blocks are written one after the other behind what precedes them; positions as DeferredWrites fills them in *)
+Fixpoint positions (start : N) (blocks : list (list N * list N)) : list bpos :=
+  match blocks with
+  | [] => []
+  | (names, data) :: r => mk_bpos names start (N.of_nat (List.length data)) :: positions (start + N.of_nat (List.length data)) r
+  end.
